@@ -503,14 +503,14 @@ def k_latex(ctx, spec):
     return {'fam': fam, 'sym': symn, 'N': N, 'template': template, 'terms': len(hts)}
 
 
-def _states(ctx, rng, ops, N, op_charge, dtype):
+def _states(ctx, rng, ops, N, op_charge, dtype, soft=False, tag=''):
     """ket of an admissible charge and bra of charge ket + op_charge (skip when there is none)"""
     cfg = ops.config
     d = sum(ops.space().D)
     symb = None if d ** N <= 16 else set(rng.sample(range(N), 2))
     if cfg.sym.NSYM == 0:
-        ket = sym_chain(ctx, rng, ops, N, 'k', n=None, dtype=dtype, symbolic_sites=symb)
-        bra = sym_chain(ctx, rng, ops, N, 'b', n=None, dtype=dtype, symbolic_sites=symb)
+        ket = sym_chain(ctx, rng, ops, N, tag + 'k', n=None, dtype=dtype, symbolic_sites=symb)
+        bra = sym_chain(ctx, rng, ops, N, tag + 'b', n=None, dtype=dtype, symbolic_sites=symb)
         return bra, ket
     cands = charges_for(ops, N)
     rng.shuffle(cands)
@@ -520,16 +520,53 @@ def _states(ctx, rng, ops, N, op_charge, dtype):
         if nb not in cands:
             continue
         try:
-            ket = sym_chain(ctx, rng, ops, N, 'k', n=nk, dtype=dtype, symbolic_sites=symb)
-            bra = sym_chain(ctx, rng, ops, N, 'b', n=nb, dtype=dtype, symbolic_sites=symb)
+            ket = sym_chain(ctx, rng, ops, N, tag + 'k', n=nk, dtype=dtype, symbolic_sites=symb)
+            bra = sym_chain(ctx, rng, ops, N, tag + 'b', n=nb, dtype=dtype, symbolic_sites=symb)
         except yastn.YastnError:
             continue
         return bra, ket
+    if soft:
+        raise _NoStates()
     ctx.skip('no admissible pair of charges')
 
 
 def _expect(B, M, K):
     return (dense.conj(B).reshape(-1) * (_matmul(M, K.reshape(-1, 1)).reshape(-1) if M.dtype == object else (M @ K.reshape(-1)))).sum()
+
+
+class _NoStates(Exception):
+    pass
+
+
+def _two_site_case(ctx, rng, ops, names, cfg, ph, N, jw, which, o, p, spec, fam, symn, tag=''):
+    import yastn.tn.mps as mps
+    O, P = names[o], names[p]
+    bra, ket = _states(ctx, rng, ops, N, tuple(cfg.sym.add_charges(O.n, P.n)), spec['dtype'], soft=True, tag=tag)
+    Bd, Kd = dense_chain(bra, ph), dense_chain(ket, ph)
+    if which == '2site':
+        res = mps.measure_2site(bra, O, P, ket, bonds='a')
+        pairs = [(i, j) for i in range(N) for j in range(N)]
+        ctx.check(sorted(res) == sorted(pairs), 'measure_2site(bonds="a"): all pairs', sorted(res))
+    else:
+        sO = sorted(rng.sample(range(N), rng.randint(1, N)))
+        sP = sorted(rng.sample(range(N), rng.randint(1, N)))
+        res = mps.measure_2site(bra, {k: O for k in sO}, {k: P for k in sP}, ket, bonds='a')
+        pairs = [(i, j) for i in sO for j in sP]
+        ctx.check(sorted(res) == sorted(pairs), 'measure_2site(dict operators): pairs restricted to the given sites', (sorted(res), sorted(pairs)))
+    for (i, j) in pairs:
+        ref = _expect(Bd, _matmul(jw.embed(O, i), jw.embed(P, j)), Kd)
+        ctx.eq([res[(i, j)]], [ref], f'measure_2site({o}_{i} {p}_{j})')
+    i, j = rng.randrange(N), rng.randrange(N)
+    if which == '2site':
+        ctx.eq([mps.measure_2site(bra, O, P, ket, bonds=(i, j))], [_expect(Bd, _matmul(jw.embed(O, i), jw.embed(P, j)), Kd)], f'measure_2site(bonds=({i},{j})) returns the number')
+        for b in ('<', '=', '>', 'r1', 'r-1', 'r1p'):
+            r = mps.measure_2site(bra, O, P, ket, bonds=b)
+            exp = {'<': [(a, c) for a in range(N) for c in range(a + 1, N)], '=': [(a, a) for a in range(N)], '>': [(a, c) for a in range(N) for c in range(a)],
+                   'r1': [(a, a + 1) for a in range(N - 1)], 'r-1': [(a, a - 1) for a in range(1, N)], 'r1p': sorted(set((a, (a + 1) % N) for a in range(N)))}[b]
+            ctx.check(sorted(r) == sorted(exp), f'measure_2site(bonds="{b}"): pair set', (sorted(r), exp))
+            for pr in exp:
+                ctx.eq([r[pr]], [res[pr]], f'measure_2site(bonds="{b}") consistent with bonds="a"')
+    return {'fam': fam, 'sym': symn, 'N': N, 'ops': (o, p)}
 
 
 def k_measure(ctx, spec):
@@ -562,34 +599,28 @@ def k_measure(ctx, spec):
         ctx.eq([r2[n0]], [_expect(Bd, jw.embed(O, n0), Kd)], 'measure_1site(dict)')
         return {'fam': fam, 'sym': symn, 'N': N, 'op': o}
     if which in ('2site', '2site_dict'):
-        o, p = rng.choice(keys), rng.choice(keys)
-        O, P = names[o], names[p]
-        bra, ket = _states(ctx, rng, ops, N, tuple(cfg.sym.add_charges(O.n, P.n)), spec['dtype'])
-        Bd, Kd = dense_chain(bra, ph), dense_chain(ket, ph)
-        if which == '2site':
-            res = mps.measure_2site(bra, O, P, ket, bonds='a')
-            pairs = [(i, j) for i in range(N) for j in range(N)]
-            ctx.check(sorted(res) == sorted(pairs), 'measure_2site(bonds="a"): all pairs', sorted(res))
-        else:
-            sO = sorted(rng.sample(range(N), rng.randint(1, N)))
-            sP = sorted(rng.sample(range(N), rng.randint(1, N)))
-            res = mps.measure_2site(bra, {k: O for k in sO}, {k: P for k in sP}, ket, bonds='a')
-            pairs = [(i, j) for i in sO for j in sP]
-            ctx.check(sorted(res) == sorted(pairs), 'measure_2site(dict operators): pairs restricted to the given sites', (sorted(res), sorted(pairs)))
-        for (i, j) in pairs:
-            ref = _expect(Bd, _matmul(jw.embed(O, i), jw.embed(P, j)), Kd)
-            ctx.eq([res[(i, j)]], [ref], f'measure_2site({o}_{i} {p}_{j})')
-        i, j = rng.randrange(N), rng.randrange(N)
-        if which == '2site':
-            ctx.eq([mps.measure_2site(bra, O, P, ket, bonds=(i, j))], [_expect(Bd, _matmul(jw.embed(O, i), jw.embed(P, j)), Kd)], f'measure_2site(bonds=({i},{j})) returns the number')
-            for b in ('<', '=', '>', 'r1', 'r-1', 'r1p'):
-                r = mps.measure_2site(bra, O, P, ket, bonds=b)
-                exp = {'<': [(a, c) for a in range(N) for c in range(a + 1, N)], '=': [(a, a) for a in range(N)], '>': [(a, c) for a in range(N) for c in range(a)],
-                       'r1': [(a, a + 1) for a in range(N - 1)], 'r-1': [(a, a - 1) for a in range(1, N)], 'r1p': sorted(set((a, (a + 1) % N) for a in range(N)))}[b]
-                ctx.check(sorted(r) == sorted(exp), f'measure_2site(bonds="{b}"): pair set', (sorted(r), exp))
-                for pr in exp:
-                    ctx.eq([r[pr]], [res[pr]], f'measure_2site(bonds="{b}") consistent with bonds="a"')
-        return {'fam': fam, 'sym': symn, 'N': N, 'ops': (o, p)}
+        fss = _fss(cfg)
+        odd = [k for k in keys if any(fss) and any(names[k].n[c] % 2 for c in range(len(fss)) if fss[c])]
+        charged_even = [k for k in keys if k not in odd and cfg.sym.NSYM and tuple(names[k].n) != tuple(cfg.sym.zero())]
+        trials = [(rng.choice(keys), rng.choice(keys))]
+        if odd:
+            trials.append((rng.choice(odd), rng.choice(odd)))                 # two odd operators: the exchange sign of the i > j branch
+            same = [k for k in odd if k != trials[-1][0] and tuple(names[k].n) == tuple(cfg.sym.add_charges(names[trials[-1][0]].n, new_signature=-1))]
+            if same:
+                trials.append((trials[-1][0], rng.choice(same)))              # c / c+ of the same species
+        if odd and charged_even:
+            trials.append((rng.choice(charged_even), rng.choice(odd)))        # e.g. S+ with c: even under the statistics, non-zero charge
+        out = None
+        done = 0
+        for it, (o, p) in enumerate(trials):
+            try:
+                out = _two_site_case(ctx, rng, ops, names, cfg, ph, N, jw, which, o, p, spec, fam, symn, tag=f't{it}')
+                done += 1
+            except _NoStates:
+                continue
+        if not done:
+            ctx.skip('no admissible pair of charges')
+        return out
     # nsite
     k = rng.choice([1, 2, 3, 4])
     opn = [rng.choice(keys) for _ in range(k)]
